@@ -35,12 +35,13 @@ def main():
     rc2, o2 = sh(demo, wt)
     res["demo_passes_without"] = rc2 == 0
     sh("git apply out/patch.diff", wt)
-    rc3, o3 = sh("go build ./...", wt)
+    rc3, o3 = sh("go build $(go list ./... 2>/dev/null | grep -v '/out$')", wt)
     res["builds"] = rc3 == 0
     pk = " ".join("./" + p.strip("./") + "/..." if not p.endswith("...") else p for p in meta.get("packages_tested", []))
     files = [l[6:] for l in open(os.path.join(out, "patch.diff")) if l.startswith("+++ b/")]
     pkgs = sorted({"./" + os.path.dirname(f) + "/" for f in files})
-    skip = " -skip ECDSA" if any("bfe_tls" in p for p in pkgs) else ""
+    # tests that fail / hang on the unmodified tree as well (Go version incompatibilities)
+    skip = " -skip ECDSA" if any("bfe_tls" in p for p in pkgs) else (" -skip GetJSON" if any("bfe_module/" in p for p in pkgs) else "")
     # existing tests only: move demo test files away
     demos = [f for f in os.listdir(out) if f.endswith("_test.go")]
     moved = []
